@@ -206,6 +206,7 @@ class Broken(Exception):
 
 
 SIGS = {}
+SIGNATURES = {}     # lean name -> parameter list + result type of the generated definition
 
 
 def _try_ctype(p):
@@ -1211,6 +1212,7 @@ def translate_site(site, consts, sizes, key):
         order = [lname(p["name"]) for p in fn.get("inner", []) if p.get("kind") == "ParmVarDecl"]
         SIGS[site["lean"]] = {"order": order, "ptrs": ptrs, "allp": allp}
     sig = " ".join(f"({n} : {t})" for n, t in allp)
+    SIGNATURES[site["lean"]] = sig + " : " + rty
     src = f"{fn.get('loc', {}).get('line', fn.get('range', {}).get('begin', {}).get('line', '?'))}"
     txt = (f"/-- from `{site['filter']}` {site.get('targs', site.get('record', ''))} "
            f"`{site['name']}`{''.join(' <' + t + '>' for t in site.get('fn_targs', []))} [{site.get('select', 'function')}] -/\n"
@@ -1258,6 +1260,17 @@ def main():
              "namespace ElfioVerif.Gen", ""] + parts + ["end ElfioVerif.Gen"]
         write_if_changed(os.path.join(OUT, f + ".lean"), "\n".join(L) + "\n")
     os.makedirs(BUILD, exist_ok=True)
+    # Models call generated definitions positionally; a change of the *parameter order* (e.g. `a - b`
+    # rewritten to `b - a` swaps the order of first appearance) would silently re-bind the arguments.
+    # The committed lock file pins every signature; a deviation is reported like a broken site.
+    lock_path = os.path.join(HERE, "signatures.lock.json")
+    if "--relock" in sys.argv or not os.path.exists(lock_path):
+        json.dump(SIGNATURES, open(lock_path, "w"), indent=0, sort_keys=True)
+    else:
+        lock = json.load(open(lock_path))
+        for k, v in SIGNATURES.items():
+            if k in lock and lock[k] != v and status.get(k) == "ok":
+                status[k] = f"signature-changed: was `{lock[k]}` now `{v}`"
     json.dump({"repo_hash": key, "sites": status}, open(os.path.join(BUILD, "gen_status.json"), "w"), indent=1)
     broken = {k: v for k, v in status.items() if v != "ok"}
     for k, v in broken.items():
